@@ -242,7 +242,7 @@ func cmdRac(args []string) {
 					fmt.Printf("FAIL %s: %s\n", r.name, truncate(strings.TrimSpace(l), 600))
 				}
 			}
-		case strings.HasPrefix(strings.TrimSpace(r.out), "ok"):
+		case strings.HasPrefix(strings.TrimSpace(r.out), "ok") || strings.Contains(r.out, "\nok  \t") || strings.Contains(r.out, "--- PASS: TestVerifReplay"):
 			fmt.Printf("ok   %s\n", r.name)
 		default:
 			bad++
